@@ -209,7 +209,19 @@ func ExecuteC05(t *testing.T, plan *Plan) *RunResult {
 		case got.Notes != base.Notes:
 			field = "notes"
 		}
-		violate("identical-output", what+":"+field, fmt.Sprintf("%s differs under perturbation %q: baseline %q vs %q", field, what, trunc(pick(base, field), 300), trunc(pick(got, field), 300)))
+		// attribution: if plain repetition already changes the outcome, the perturbation is not the cause
+		cause := what + ":" + field
+		if what == "repeat" {
+			cause = "repeat"
+		} else {
+			for i := 0; i < 8; i++ {
+				if renderOnce(&spec, vals, rs, nil).key() != base.key() {
+					cause = "repeat"
+					break
+				}
+			}
+		}
+		violate("identical-output", cause, fmt.Sprintf("%s differs under perturbation %q: baseline %q vs %q", field, what, trunc(pick(base, field), 300), trunc(pick(got, field), 300)))
 		return false
 	}
 	// (a) repetition: every render draws fresh map iteration orders
@@ -490,6 +502,12 @@ done:
 	res.NonTrivial = nRenders > 2
 	res.Events = nRenders
 	res.EventHash = bodyHash([]byte(strings.ReplaceAll(base.key(), dir, "<TMP>")))
+	for _, v := range res.Violations {
+		if v.Cause == "repeat" {
+			// the finding IS that the output changes from render to render: there is no stable output to hash
+			res.EventHash = bodyHash([]byte("output differs between repetitions"))
+		}
+	}
 	return res
 }
 
